@@ -436,12 +436,6 @@ func z12Body(sc z12Scenario) func() {
 			env.Frozen = !again
 			// repeat the operation
 			ok, detail := w.run(sc.Op)
-			if gos.Getenv("VERIF_DEBUG_DUMP") != "" {
-				if f, err := gos.OpenFile(gos.Getenv("VERIF_DEBUG_DUMP"), gos.O_APPEND|gos.O_CREATE|gos.O_WRONLY, 0o644); err == nil {
-					fmt.Fprintf(f, "C12-DEBUG %s crash %q: redo ok=%v %s\n", sc.Name, label, ok, detail)
-					f.Close()
-				}
-			}
 			if level != my {
 				return // a further crash ended this process too; the next one has taken over (and judged)
 			}
